@@ -25,6 +25,16 @@ def register(R):
     R.contract(Q + "._compute_drift_threshold", tags=("C10",), modular=True,
                params={"M_nnps": "Mat", "v_ref": "Vec", "v_test": "Vec", "sampling_times": "Int", "alpha": "Real"},
                result="Real", ensures=[], modifies=[], check_invariant=False, assume_invariant=False)
+    # C17: a smaller alpha never lowers the critical value.  Two runs of the real function on the same matrix, membership
+    # vectors and number of re-assignments; the sampling loop is abstracted (its body is not verified here) and shown not
+    # to read alpha (dependency analysis), so both runs fit the same sample; the tail - norm.fit, norm.ppf(1 - alpha, mu,
+    # std) - is executed symbolically
+    R.relational("NNDVI_alpha", function=Q + "._compute_drift_threshold", tags=("C17",), vary=[], vary_params=["alpha"],
+                 requires=["0 < alpha1 and alpha1 <= alpha2 and alpha2 < 1", "sampling_times1 >= 0"],
+                 ensures=["result1 >= result2"],
+                 loops={Q + "._compute_drift_threshold": {0: {"abstract": True, "independent": True, "index": "k0",
+                                                             "havoc_locals": ["d_shuffle", "v1_shuffle", "v2_shuffle", "d_i_shuffle"],
+                                                             "types": {"d_shuffle": "AnyList"}, "invariant": []}}})
     R.contract(Q + ".update", tags=("C10", "C01"), params={"X": "RawX", "y_true": "RawY", "y_pred": "RawY"},
                reads_not=["y_true", "y_pred"], reads_not_tags=("C16",),
                calls={NP: "opaque", NP + ".compute_nnps_distance": "contract"},
